@@ -52,10 +52,10 @@ def run():
     corp = Corpus(chk)
     r = common.rng("c09")
     if chk.quick:
-        triples = corp.triples(n_enum=600, n_random=140, salt="c09")
+        triples = corp.triples(n_enum=600, n_random=140, salt="c09") + mergefam.sweep(chk, "lossless", 100)
         tasks = make_tasks(triples, r, n_cli=3, all_cli_for=4)
     else:
-        triples = corp.triples(n_enum=6000, n_random=2500, random_maxedits=5, salt="c09")
+        triples = corp.triples(n_enum=6000, n_random=2500, random_maxedits=5, salt="c09") + mergefam.sweep(chk, "lossless", 1000, positions=("same", "adjacent", "apart"))
         tasks = make_tasks(triples, r, n_cli=6, all_cli_for=60)
     events = mergefam.generate(tasks)
     info = {t[0]: t[4] for t in triples}
